@@ -11,8 +11,8 @@ package main
 // nothing else, and no test of the suite probes the exact boundary.
 
 import (
-	"go/constant"
 	"fmt"
+	"go/constant"
 	"go/token"
 	"os"
 	"sort"
